@@ -492,3 +492,113 @@ func VerifHarness_C09_O8() {
 }
 
 func VerifHarness_C16_O6() { VerifHarness_C09_O8() }
+
+// C16/O8 (= C07/O5) — a long-silent validator on a Badger-backed store with a
+// small cache.  Validators A and B gossip with each other for k rounds while C
+// stays silent after its first event, so that old events leave the event cache
+// and their creator's in-memory window.  C then creates an event on top of a
+// chosen OLD event of A (other-parent), which a Badger-backed node can still
+// read from its database.  Life goes on.  Whatever InsertEvent answered: the
+// database's topological listing holds every stored event exactly once, in
+// order, and every per-creator listing is complete and duplicate-free (C16);
+// an insertion that returned an error left no trace in the store (C07).
+func VerifHarness_C16_O8() {
+	dir := verifTempDir("c16o8")
+	cache := []int{4, 6}[verifChoice("cacheSize", 2)]
+	bst, err := NewBadgerStore(cache, dir, false, nil)
+	if err != nil {
+		panic(err)
+	}
+	vn := verifNewNetOnStore(3, bst)
+	head := []string{"", "", ""}
+	seq := []int{-1, -1, -1}
+	var attempted []*Event
+	var accepted []*Event
+	play := func(c int, other string) (*Event, error) {
+		ev := vn.mkEvent(c, head[c], other, seq[c]+1, [][]byte{{byte(c), byte(seq[c] + 1)}})
+		attempted = append(attempted, ev)
+		err := vn.insert(ev)
+		if err == nil {
+			head[c] = ev.Hex()
+			seq[c]++
+			accepted = append(accepted, ev)
+		}
+		return ev, err
+	}
+	must := func(c int, other string) *Event {
+		ev, err := play(c, other)
+		if err != nil {
+			panic(fmt.Sprintf("insert of event %d of validator %d: %v", seq[c]+1, c, err))
+		}
+		return ev
+	}
+	var aEvents []*Event
+	aEvents = append(aEvents, must(0, ""))
+	must(1, "")
+	must(2, "")
+	k := 4 + verifChoice("pingPongRounds", 3)
+	for i := 0; i < k; i++ {
+		aEvents = append(aEvents, must(0, head[1]))
+		must(1, head[0])
+	}
+	// C builds on an old event of A: its first, its second, or a recent one
+	pick := []int{0, 1, len(aEvents) - 2}[verifChoice("otherParentOfTheLateEvent", 3)]
+	if _, merr := bst.inmemStore.GetEvent(aEvents[pick].Hex()); merr != nil {
+		if _, werr := bst.inmemStore.ParticipantEvent(vn.peers[0].PubKeyString(), pick); werr != nil {
+			verifReach("late-event-built-on-an-ancestor-that-left-cache-and-window")
+		}
+	}
+	c1, cerr := play(2, aEvents[pick].Hex())
+	if cerr != nil {
+		_, e1 := bst.dbGetEvent(c1.Hex())
+		_, e2 := bst.GetEvent(c1.Hex())
+		verifAssert("refused-insertion-left-no-event-in-the-store", e1 != nil && e2 != nil)
+		known := bst.KnownEvents()
+		verifAssert("refused-insertion-left-the-known-events-unchanged", known[vn.peers[2].ID()] == 0)
+	}
+	for i := 0; i < 3; i++ {
+		must(0, head[1])
+		must(1, head[0])
+	}
+	// what is in the database?
+	var stored []*Event
+	for _, ev := range attempted {
+		if _, err := bst.dbGetEvent(ev.Hex()); err == nil {
+			stored = append(stored, ev)
+		}
+	}
+	for _, ev := range accepted {
+		_, err := bst.dbGetEvent(ev.Hex())
+		verifAssert("accepted-event-is-in-the-database", err == nil)
+	}
+	listing, lerr := bst.dbTopologicalEvents(0, 10*len(attempted))
+	verifAssert("topological-listing-readable", lerr == nil)
+	count := map[string]int{}
+	for _, ev := range listing {
+		count[ev.Hex()]++
+	}
+	verifAssert("topological-listing-has-as-many-entries-as-stored-events", len(listing) == len(stored))
+	for _, ev := range stored {
+		verifAssert("stored-event-appears-exactly-once-in-the-topological-listing", count[ev.Hex()] == 1)
+	}
+	for c := 0; c < 3; c++ {
+		got, err := bst.dbParticipantEvents(vn.peers[c].PubKeyString(), -1)
+		n := 0
+		for _, ev := range stored {
+			if ev.Creator() == vn.peers[c].PubKeyString() {
+				n++
+			}
+		}
+		ok := err == nil && len(got) == n
+		for _, h := range got {
+			if count[h] != 1 {
+				ok = false
+			}
+		}
+		verifAssert("participant-listing-agrees-with-the-topological-listing", ok)
+	}
+	bst.Close()
+	verifReach("end")
+}
+
+func VerifHarness_C07_O5() { VerifHarness_C16_O8() }
